@@ -139,7 +139,8 @@ def build_for(ctx, prop):
     with BuildLock():
         tstatus = regen(ctx.repo)
         res = {"translators": tstatus}
-        model_targets = [str(p.relative_to(COQ)) + "o" for p in sorted((COQ / "theories" / "Model").rglob("*.v"))]
+        listed = [ln.strip() for ln in (COQ / "_CoqProject").read_text().splitlines() if ln.strip().startswith("theories/Model/") and ln.strip().endswith(".v")]
+        model_targets = [ln + "o" for ln in listed]   # exactly the files of the project (a scratch file lying in the directory is not a target)
         ok_model, log_model = coq_make(model_targets, ctx.jobs)
         res["model_ok"] = ok_model
         res["model_log"] = log_model[-4000:] if not ok_model else ""
